@@ -123,6 +123,11 @@ inductive Obs where
   | quiesce (pend run : List Nat)
 deriving DecidableEq, Repr, Hashable
 
+/-- lines logged from inside the final critical section (scripted backoff, exit callbacks) -/
+def Obs.isLine : Obs → Bool
+  | .bo _ | .exitcb _ _ => true
+  | _ => false
+
 inductive Ev where
   | cfg (c : Cfg)
   | inv (a : Nat) (op : Op)
@@ -524,7 +529,7 @@ def stepI (s : St) : Ev → Option St
     | _, _ => none
   | .emit o =>
     match s.lockq with
-    | o' :: rest => if o = o' then some { s with lockq := rest } else none
+    | o' :: rest => if o = o' ∧ o.isLine = true then some { s with lockq := rest } else none
     | [] => none
   | .fire t =>
     match s.timers[t]? with
